@@ -4,7 +4,7 @@
 set -u
 REPO=${VERIF_REPO:-/repo}
 V=/verif
-B=$V/.build
+B=${VERIF_BUILD:-$V/.build}
 export GOFLAGS=-mod=mod GOPROXY=off GOTOOLCHAIN=local GONOSUMDB=* GONOSUMCHECK=1 GOFLAGS="-mod=mod"
 GOROOT_DIR=$(ls -d /root/go/pkg/mod/golang.org/toolchain@v0.0.1-go1.26.5.linux-amd64 2>/dev/null)
 if [ -z "$GOROOT_DIR" ]; then GO=/opt/veriftools/go1.26.8/bin/go; else GO=$GOROOT_DIR/bin/go; fi
@@ -19,7 +19,7 @@ mkdir -p $B
   $B/xform -repo $REPO -out $B/overlay -hooks $V/hooks \
      -dirs pkg/blobstore,pkg/digest,pkg/auth,pkg/eviction,pkg/util,pkg/zstd,pkg/blockdevice,pkg/filesystem \
      -xsync $XS:$B/xsync > $B/xform.stats
-  sed "s#@REPO@#$REPO#" $V/vsim/go.mod.tmpl > $B/vsim.mod
+  sed "s#@REPO@#$REPO#; s#@BUILD@#$B#" $V/vsim/go.mod.tmpl > $B/vsim.mod
   cp $REPO/go.sum $B/vsim.sum
   cd $V/vsim
   $GO build -modfile=$B/vsim.mod -tags verif -overlay $B/overlay/overlay.json -o $B/vsim ./cmd/vsim
